@@ -257,8 +257,8 @@ class Run:
         # ---------------- signatures
         out_viol = []
         for kind, text in viol:
-            sig = classify(kind, op, e, ran, pre_real, real, outcome)
-            if sig is None and pre_diverged and self.taint:
+            sig = classify(kind, op, e, ran, pre_real, real, outcome, exc_text, self.error_record("py") if "py" in self.ids else None)
+            if sig is None and pre_diverged and self.taint and self.taint != "unclassified":
                 sig = self.taint
                 text = "(follow-up: cache already disagreed with the reference) " + text
             out_viol.append((sig, kind, text))
@@ -281,19 +281,20 @@ def same_outputs(got, exp):
     return got is not None and all(type(got.get(k)) is type(v) and got.get(k) == v for k, v in exp.items())
 
 
-def classify(kind, op, e, ran, pre_real, real, outcome):
+def classify(kind, op, e, ran, pre_real, real, outcome, exc_text, py_error):
     """narrow structural classes of violations seen on the unchanged tree"""
     mode, code, task, worker = op
     if e["kind"] != "run":
         return None
     # a python body returning a dict that lacks a declared mandatory output is accepted: the execution that should
     # have failed is stored as a success (whatever the submission then reports)
-    if mode == "misskey" and "py" in e["failing"] and ran["py"] and real.get("py") == "ok":
+    if mode == "misskey" and "py" in e["failing"] and ran["py"] and real.get("py") == "ok" and py_error is None:
         return "dict-missing-mandatory-key"
-    # the re-execution after a cached failure succeeded (result stored as ok) but the stale error is reported
+    # the re-execution after a cached failure succeeded (result stored as ok) but the stale error is reported:
+    # the failure that is raised has no recorded error behind it ("... failed @ UNKNOWN-TIME ... NOT RETRIEVED")
     if (kind == "success-reported-as-failure" and not e["fail"] and all(ran[leaf] for leaf in e["need"])
             and any(pre_real[i] == "errored" for i in [task, *e["need"]])
-            and all(real[leaf] == "ok" for leaf in e["need"])):
+            and all(real[leaf] == "ok" for leaf in e["need"]) and "NOT RETRIEVED" in exc_text):
         return "stale-error-after-successful-rerun"
     return None
 
